@@ -57,6 +57,9 @@ class HyteraIPSC:
         self.reserved_2a: bytes = HyteraIPSC.DEFAULT_RESERVED_2A
         self.reserved_2b: bytes = HyteraIPSC.DEFAULT_RESERVED_2B
         self.reserved_1: bytes = HyteraIPSC.DEFAULT_RESERVED_1
+        # the IPSC payload field has 34 octets, the burst takes 33:
+        # the remaining octet is kept so that a parsed frame re-serialises unchanged
+        self.payload_pad: bytes = b"\x00"
 
     def __repr__(self) -> str:
         return (
@@ -86,14 +89,14 @@ class HyteraIPSC:
         reserved_7a = ipsc[9:16]
         timeslot = Timeslot(int.from_bytes(ipsc[16:18], "little"))
         slot_type = SlotType(int.from_bytes(ipsc[18:20], "little"))
-        color_code = int.from_bytes(ipsc[20:22], "little")
+        color_code = int.from_bytes(ipsc[20:22], "little") & 0xF
         frame_type = FrameType(int.from_bytes(ipsc[22:24], "little"))
         reserved_2a = ipsc[24:26]
-        payload = byteswap_bytes(ipsc[26:60])[:-1]
+        payload = byteswap_bytes(ipsc[26:60])
         reserved_2b = ipsc[60:62]
         call_type = CallType(int.from_bytes(ipsc[62:63], "little"))
-        destination_radio_id = int.from_bytes(ipsc[63:67], "little")
-        source_radio_id = int.from_bytes(ipsc[67:71], "little")
+        destination_radio_id = int.from_bytes(ipsc[63:67], "little") >> 8
+        source_radio_id = int.from_bytes(ipsc[67:71], "little") >> 8
         reserved_1 = ipsc[71:72]
         ipsc = HyteraIPSC(
             sequence_number=sequence_number,
@@ -105,8 +108,9 @@ class HyteraIPSC:
             color_code=color_code,
             destination_radio_id=destination_radio_id,
             source_radio_id=source_radio_id,
-            payload=payload,
+            payload=payload[:-1],
         )
+        ipsc.payload_pad = payload[-1:]
         ipsc.first_header = first_header
         ipsc.second_header = second_header
         ipsc.reserved_3 = reserved_3
@@ -121,6 +125,7 @@ class HyteraIPSC:
         def get_kaitai_val(attribute):
             return attribute if isinstance(attribute, int) else attribute.value
 
+        payload = byteswap_bytes(ipsc.ipsc_payload)
         # create instance by parsing distinct values
         _ipsc = HyteraIPSC(
             call_type=CallType(get_kaitai_val(ipsc.call_type)),
@@ -132,8 +137,9 @@ class HyteraIPSC:
             color_code=ipsc.color_code,
             destination_radio_id=ipsc.destination_radio_id,
             source_radio_id=ipsc.source_radio_id,
-            payload=byteswap_bytes(ipsc.ipsc_payload)[:-1],
+            payload=payload[:-1],
         )
+        _ipsc.payload_pad = payload[-1:]
         # assign values from original byte representation
         _ipsc.first_header = ipsc.source_port
         _ipsc.second_header = ipsc.fixed_header
@@ -141,7 +147,7 @@ class HyteraIPSC:
         _ipsc.reserved_7a = ipsc.reserved_7a
         _ipsc.reserved_2a = ipsc.reserved_2a
         _ipsc.reserved_2b = ipsc.reserved_2b
-        _ipsc.reserved_1 = ipsc.reserved_1b
+        _ipsc.reserved_1 = bytes([ipsc.reserved_1b])
 
         return _ipsc
 
@@ -159,13 +165,16 @@ class HyteraIPSC:
             + self.frame_type.value.to_bytes(2, byteorder="little")
             + self.reserved_2a[0:2]
             + byteswap_bytes(
-                self.payload
-                if isinstance(self.payload, bytes)
-                else (self.payload.as_bytes() + b"\x00")
+                (
+                    self.payload
+                    if isinstance(self.payload, bytes)
+                    else self.payload.as_bytes()
+                )
+                + self.payload_pad[0:1]
             )
             + self.reserved_2b[0:2]
             + self.call_type.value.to_bytes(1, byteorder="little")
-            + self.destination_radio_id.to_bytes(4, byteorder="little")
-            + self.source_radio_id.to_bytes(4, byteorder="little")
+            + (self.destination_radio_id << 8).to_bytes(4, byteorder="little")
+            + (self.source_radio_id << 8).to_bytes(4, byteorder="little")
             + self.reserved_1[0:1]
         )
